@@ -12,10 +12,11 @@ from ..ref import ricartt
 from .. import lib
 
 VALS = (0., -1., 1.234567e-30, 9.999999e30, 123456.7, -1.234567e-4)
-MISS = (-999., -9999., -99999.5, -8888.)
-MASKS = ('none', 'one', 'column')
+MISS = (-999., -9999., -99999.5, -8888., -9999.999, -9999999.)
+MASKS = ('none', 'one', 'column', 'near')
 COMMENTS = (('PI_CONTACT_INFO', 'someone@example.org'), ('DATA_INFO', 'ratio 1:2 in ppbv'),
-            ('REVISION', 'R0'))
+            ('REVISION', 'R0'),
+            ('OTHER_COMMENTS', 'a long free-text comment ' + 'x' * 130 + ' end'))
 NAMES = ('O3_ppbv', 'NO2_ppbv', 'CO')
 UNITS = ('ppbv', 'ppbv', 'ppmv')
 
@@ -43,7 +44,7 @@ class Prop(core.Prop):
 
     def bounds(self, tier):
         return {'records': [1, 2, 3], 'depvars': [1, 2, 3], 'value_rotations': len(VALS) if tier == 'thorough' else 3,
-                'missing': MISS, 'masks': MASKS, 'comment_subsets': 8, 'indep_units': [True, False],
+                'missing': MISS, 'masks': MASKS, 'comment_subsets': 16, 'indep_units': [True, False],
                 'sources': ['built', 'text']}
 
     def worker_init(self):
@@ -62,10 +63,10 @@ class Prop(core.Prop):
     def expand(self, group):
         for mi in range(len(MISS)):
             for mk in MASKS:
-                for cs in range(8):
+                for cs in range(16):
                     for iu in (True, False):
                         for src in ('built', 'built-fillvalue', 'text'):
-                            if src == 'built-fillvalue' and (cs not in (0, 7) or mk == 'none'):
+                            if src == 'built-fillvalue' and (cs not in (0, 15) or mk in ('none', 'near')):
                                 continue
                             yield dict(group, miss=mi, mask=mk, comments=cs, indep_units=iu, source=src)
 
@@ -82,13 +83,19 @@ class Prop(core.Prop):
             m[nrec - 1, 0] = True
         elif case['mask'] == 'column':
             m[:, ndep - 1] = True
+        elif case['mask'] == 'near':
+            # a valid datum within 5e-6 (relative) of the missing code, next to a missing one
+            miss = MISS[case['miss']]
+            t[0, 0] = float('%.6e' % (miss * (1 + 5e-6)))
+            if nrec > 1:
+                m[1, 0] = True
         return t, m
 
     def build(self, case, t, m):
         P = lib.pnc()
         miss = MISS[case['miss']]
         nrec, ndep = t.shape
-        comments = [COMMENTS[i] for i in range(3) if case['comments'] >> i & 1]
+        comments = [COMMENTS[i] for i in range(4) if case['comments'] >> i & 1]
         time = np.arange(nrec, dtype='d') * 60. + 36000.
         if case['source'] == 'text':
             rows = []
